@@ -1556,9 +1556,26 @@ def assemble(repo, unit, cfg, opts=None):
                 asm.emit(";\n")
                 asm.end_fn()
                 return
-            if mode in ("trusted", "assumed"):
+            try:
+                sigtoks, spec, body = rewrite_fn(it, fc, cfg, opts, ov)
+            except (ExtractError, LexError, IndexError) as e:
+                if mode != "verify" or not fc:
+                    raise
+                # the function's new shape is outside the rule set: emit only its contract (as an assumed one, so
+                # that callers still verify) and record it; the back end makes it a suspect obligation
+                LOST.append((it.path, "not extractable: %s" % e))
+                hdr = strip_inner_attrs(list(it.header), cfg)
+                for pat, repl, _, _ in fc.substs:
+                    apply_subst(hdr, pat, repl)
+                for pat, repl, _, _ in ov.global_substs:
+                    apply_subst(hdr, pat, repl)
+                sigtoks = name_return(hdr, fc.ret)
+                spec = overlay_tokens(fc.spec[0], fc.spec[1], fc.spec[2]) if fc.spec else []
+                body = []
+                mode = "unextractable"
+                asm._open[-1] = asm._open[-1][:4] + (mode,)
+            if mode in ("trusted", "assumed", "unextractable"):
                 asm.emit("#[verifier::external_body]\n")
-            sigtoks, spec, body = rewrite_fn(it, fc, cfg, opts, ov)
             sigtoks = strip_vis(sigtoks)
             tname = getattr(it, "trait_name", None)
             if tname and not in_trait:
@@ -1581,7 +1598,7 @@ def assemble(repo, unit, cfg, opts=None):
             if spec:
                 asm.emit("\n")
                 asm.emit_toks(spec)
-            if mode in ("trusted", "assumed"):
+            if mode in ("trusted", "assumed", "unextractable"):
                 asm.emit("{ unimplemented!() }\n")
             else:
                 asm.emit_toks(body)
